@@ -145,8 +145,23 @@ func checkNonceLayout(p *Program, r *Result) {
 				}
 			}
 		}
-		for _, ret := range returnsOf(inc) {
-			_ = ret
+		// or: the loop running out of counter bytes (header test false) can only end in a panic
+		if !panicOK {
+			hdr := phi.Block()
+			if ifi, isIf := hdr.Instrs[len(hdr.Instrs)-1].(*ssa.If); isIf && len(hdr.Succs) == 2 {
+				_ = ifi
+				vis := p.Reach([]Loc{blockStart(hdr.Succs[1])}, nil)
+				sawPanic, sawReturn := false, false
+				for in := range vis {
+					switch in.(type) {
+					case *ssa.Panic:
+						sawPanic = true
+					case *ssa.Return:
+						sawReturn = true
+					}
+				}
+				panicOK = sawPanic && !sawReturn
+			}
 		}
 		// the edge "element != 0" must leave the loop: find an If on elem != 0
 		for _, b := range inc.Blocks {
@@ -162,7 +177,13 @@ func checkNonceLayout(p *Program, r *Result) {
 				}
 				// from the "!= 0" successor the store must not be reachable
 				vis := p.Reach([]Loc{blockStart(b.Succs[k])}, nil)
-				if !vis[ssa.Instruction(stores[0])] {
+				reachesPanic := false
+				for in := range vis {
+					if _, isP := in.(*ssa.Panic); isP {
+						reachesPanic = true
+					}
+				}
+				if !vis[ssa.Instruction(stores[0])] && !reachesPanic {
 					stopOK = true
 				}
 			}
